@@ -230,9 +230,9 @@ fn data_url_payload(sm: &SourceMap) -> Result<Vec<u8>, String> {
 
 pub fn run(run: &mut Run) -> Finish {
     let tier = run.ctx.tier;
-    let kmax = tier.pick(4, 5);
+    let kmax = tier.pick(4, 6);
     let nt = t_count(kmax);
-    run.par_slice("T: every sorted multiset of <= 4/5 tokens, three constructions (+ rewrite/adjust_mappings/flatten products for <= 3 tokens)", 1, nt * 3, |idx, l| {
+    run.par_slice("T: every sorted multiset of <= 4/6 tokens, three constructions (+ rewrite/adjust_mappings/flatten products for <= 3 tokens)", 1, nt * 3, |idx, l| {
         let k = idx & ((1 << 40) - 1);
         let m = t_map(kmax, k / 3);
         let (v, ran) = check_regular(&m, (k % 3) as usize, m.tokens.len() <= 3);
